@@ -47,8 +47,9 @@ pub const ASSUME_COMMON: &[&str] = &[
 pub mod smoke;
 pub mod seq;
 pub mod c01;
+pub mod c02;
 
 pub fn all() -> Vec<&'static CheckDef> {
-    vec![&smoke::DEF, &c01::DEF]
+    vec![&smoke::DEF, &c01::DEF, &c02::DEF]
 }
 pub fn find(id: &str) -> Option<&'static CheckDef> { all().into_iter().find(|d| d.id.eq_ignore_ascii_case(id)) }
